@@ -1,4 +1,6 @@
 (* C09 — failure contract of the Readers. *)
+From V Require Import XFlate.Total.
+From V Require Import Bzip2.Common Bzip2.SpecR Bzip2.SpecW Bzip2.Cut.
 From V Require Import Base.Prelude Base.Prog Base.ProgThms Flate.Spec Flate.Thms XFlate.Reader XFlate.Thms Life.ReadLoop Flate.Safe Flate.Fuel Brotli.Spec Brotli.Safe Brotli.Fuel Bzip2.Common Bzip2.SpecR Bzip2.Safe.
 
 (* the error a Read reports is the decoder's own outcome (wrapped by the
@@ -86,3 +88,22 @@ Theorem bzip2_error_classes : forall input,
   end.
 Proof. exact bzip2_decode_total. Qed.
 Print Assumptions bzip2_error_classes.
+
+(* bzip2: every proper non-empty prefix of a Writer-produced stream, any level, any data, fails
+   with exactly UnexpectedEOF having delivered a prefix of the data *)
+Theorem bzip2_truncation_is_unexpected_eof : forall level data k,
+  1 <= level <= 9 -> (forall b, In b data -> b < 256) ->
+  (0 < k < length (bzip2_encode level data))%nat ->
+  bz_err (bzip2_decode (firstn k (bzip2_encode level data))) = Some EUEOF /\
+  prefix_of (bz_out (bzip2_decode (firstn k (bzip2_encode level data)))) data /\
+  bz_used (bzip2_decode (firstn k (bzip2_encode level data))) = N.of_nat k.
+Proof. exact bzip2_cut_is_ueof. Qed.
+Print Assumptions bzip2_truncation_is_unexpected_eof.
+
+(* xflate.Reader on ANY input: open fails only with Corrupted / UnexpectedEOF, and every call of
+   every history on an opened stream ends in nil / EOF / Corrupted / UnexpectedEOF / Closed
+   (Seek: also Invalid) - never an internal class, a panic or an exhausted budget *)
+Theorem xflate_reader_error_classes : forall data s1 ops,
+  open_reader data = inr s1 -> Forall obs_ok (fst (rrun s1 ops)).
+Proof. exact reader_total. Qed.
+Print Assumptions xflate_reader_error_classes.
